@@ -327,7 +327,33 @@ def check_driver(res, species_names, rng, tag):
             if vin is match and any(abs(a - b) > 1e-9 * abs(b) for a, b in zip(got, vin)):
                 res.violation("oracle", f"call {k + 1}: a vector that already has the reference ratios is changed: {vin[:3]} -> {got[:3]}", dict(case, call=k + 1))
                 break
-    res.count("driver runs (SetReferenceAbund once, Renorm x4)")
+    # the other way of giving the reference: per-element values (opt 0), ratios relative to the H entry
+    macros = ol.read_macros(d)
+    eidx = {el: ol.macro_int(macros, "IDX_ELEM_" + el) for el in ename}
+    refel = [0.0] * len(ename)
+    for el in ename:
+        refel[eidx[el]] = rng.uniform(0.05, 2.0)
+    want0 = {el: refel[eidx[el]] / refel[eidx["H"]] for el in ename}
+    arg0 = "opt0:" + ",".join(repr(x) for x in refel)
+    v0 = vec()
+    out0 = subprocess.run([str(exe), arg0, ",".join(repr(x) for x in v0)], stdout=subprocess.PIPE, text=True).stdout.splitlines()
+    if len(out0) != 1 or out0[0].split()[0] != "0":
+        res.violation("oracle", f"Renorm after SetReferenceAbund(ref, 0) returns {out0[:1]}", dict(case, call="opt0"))
+    else:
+        got0 = [float(x) for x in out0[0].split()[1:]]
+        have0 = ratios(got0)
+        bad = [el for el in ename if abs(have0[el] - want0[el]) > 1e-9 * abs(want0[el])]
+        if bad:
+            res.violation("oracle", f"reference given per element (opt 0): after Renorm {bad[0]}/H = {have0[bad[0]]!r}, reference {want0[bad[0]]!r} "
+                                    f"(species {[s.name for s in species]})", dict(case, call="opt0"))
+        else:
+            # a vector that already has the reference ratios (the result just obtained) must come back unchanged
+            again = subprocess.run([str(exe), arg0, ",".join(repr(x) for x in got0)], stdout=subprocess.PIPE, text=True).stdout.split()
+            got1 = [float(x) for x in again[1:]]
+            if len(got1) != n or any(abs(a - b) > 1e-9 * abs(b) for a, b in zip(got1, got0)):
+                res.violation("oracle", f"reference given per element (opt 0): a vector that already has the reference ratios is changed: {got0[:3]} -> {got1[:3]} "
+                                        f"(species {[s.name for s in species]})", dict(case, call="opt0-identity"))
+    res.count("driver runs (SetReferenceAbund once, Renorm x4; per-element reference x2)")
     ol.cleanup_scratch()
     res.case(("c16-driver", tag, tuple(species_names)), sample={"species": species_names[:8], "calls": len(inputs)}, nontrivial=True)
 
